@@ -74,6 +74,8 @@ def _powerlaw_predictor(exponent, slope, scale, m_lower, m_upper):
 
 
 def _lines(mi, slopes, scales, exponents, m_breaks):
+    mi = np.asanyarray(mi)  # also accept plain python floats
+
     bounds = [(lw_bnd <= mi) & (mi <= up_bnd)
               for lw_bnd, up_bnd in zip(m_breaks[:-1], m_breaks[1:])]
 
